@@ -139,6 +139,24 @@ impl Property for C03 {
                 return Err((Failure::new(format!("small-scope exhaustive search: {}", e)).with_detail(json!({"documents": docs})), json!({"small_scope_documents": docs})));
             }
         }
+        // counter / size thresholds: a child repeated n times inside one parent occurrence, n parent occurrences
+        let ns: &[usize] = match tier {
+            Tier::Quick => &[2, 3, 15, 16, 17, 31, 32, 33, 63, 64, 65, 127, 128, 129, 254, 255, 256, 257, 258, 511, 512, 513, 1023, 1024, 1025],
+            Tier::Thorough => &[2, 3, 15, 16, 17, 31, 32, 33, 63, 64, 65, 127, 128, 129, 254, 255, 256, 257, 258, 511, 512, 513, 1023, 1024, 1025, 4095, 4096, 4097, 65535, 65536, 65537],
+        };
+        for n in ns {
+            for docs in super::smallscope::threshold_family(*n) {
+                let bytes: Vec<Vec<u8>> = docs.iter().map(|d| crate::xmlser::canonical(d).into_bytes()).collect();
+                let refs: Vec<&crate::model::Node> = docs.iter().collect();
+                st.evaluations += 1;
+                st.nontrivial_enumerated += 1;
+                st.count("threshold_family.cases");
+                if let Err(e) = small_oracle(&refs, &bytes) {
+                    let short: Vec<String> = bytes.iter().map(|b| { let s = String::from_utf8_lossy(b); if s.len() > 160 { format!("{}... ({} bytes)", &s[..160], s.len()) } else { s.to_string() } }).collect();
+                    return Err((Failure::new(format!("threshold family n={}: {}", n, e.lines().next().unwrap_or(""))).with_detail(json!({"documents": short})), json!({"threshold_n": n})));
+                }
+            }
+        }
         if tier == Tier::Thorough {
             let runs = std::env::var("XSGV_FUZZ_RUNS").ok().and_then(|s| s.parse().ok()).unwrap_or(125_000u64);
             let seeds: Vec<Vec<u8>> = crate::runner::gen_tapes(self, seed ^ 0x7a9e, 200)
@@ -157,6 +175,14 @@ impl Property for C03 {
         Ok(())
     }
     fn replay_custom(&self, payload: &Value) -> Result<(), Failure> {
+        if let Some(n) = payload["threshold_n"].as_u64() {
+            for docs in super::smallscope::threshold_family(n as usize) {
+                let bytes: Vec<Vec<u8>> = docs.iter().map(|d| crate::xmlser::canonical(d).into_bytes()).collect();
+                let refs: Vec<&crate::model::Node> = docs.iter().collect();
+                small_oracle(&refs, &bytes).map_err(|e| Failure::new(e.lines().next().unwrap_or("").to_string()))?;
+            }
+            return Ok(());
+        }
         if let Some(docs) = payload["small_scope_documents"].as_array() {
             let bytes: Vec<Vec<u8>> = docs.iter().map(|d| d.as_str().unwrap_or("").as_bytes().to_vec()).collect();
             return replay_small(&bytes).map_err(Failure::new);
@@ -168,7 +194,7 @@ impl Property for C03 {
         }
     }
     fn rule(&self) -> String {
-        "small-scope exhaustive: every ordered pair of documents over {root r, child names a,b, attribute k, optional text} with <= 3 elements (quick; 300k pairs) or <= 4 elements (thorough; 76M pairs) and depth <= 3, plus all triples over <= 2 (quick) / <= 3 (thorough) elements and all 4-tuples over <= 2 elements (thorough); sampled: tape-decoded sequences of 1..5 well-formed documents over small per-case name pools (all name classes, 1 in 8 wide), full surface variation; compared with an independent reference inference over the generator's DOM at two observation points (rendered structs, returned Element tree). Non-trivial = the reference schema holds at least one Optional or Vec decision and some position has two or more occurrences; distinct by hash of the structural documents.".into()
+        "small-scope exhaustive: every ordered pair of documents over {root r, child names a,b, attribute k, optional text} with <= 3 elements (quick; 300k pairs) or <= 4 elements (thorough; 76M pairs) and depth <= 3, plus all triples over <= 2 (quick) / <= 3 (thorough) elements and all 4-tuples over <= 2 elements (thorough); a threshold family (a child repeated n times inside one parent occurrence / n parent occurrences, n around every power of two up to 1024, up to 65537 in thorough); sampled: tape-decoded sequences of 1..5 well-formed documents over small per-case name pools (all name classes, 1 in 8 wide), full surface variation; compared with an independent reference inference over the generator's DOM at two observation points (rendered structs, returned Element tree). Non-trivial = the reference schema holds at least one Optional or Vec decision and some position has two or more occurrences; distinct by hash of the structural documents.".into()
     }
     fn assumptions(&self) -> Vec<String> {
         vec![
